@@ -1,4 +1,5 @@
 #include <assert.h>
+#include <errno.h>
 #include <ctype.h>
 #include <limits.h>
 #include <stdbool.h>
@@ -400,6 +401,8 @@ inttype(unsigned long long val, bool decimal, char *end)
 	struct type *t;
 	size_t i, step;
 
+	if (strstr(end, "lL") || strstr(end, "Ll"))
+		error(&tok.loc, "invalid integer constant suffix '%s'", end);
 	for (i = 0; end[i]; ++i)
 		end[i] = tolower(end[i]);
 	for (i = 0; i < LEN(limits); ++i) {
@@ -708,6 +711,8 @@ primaryexpr(struct scope *s)
 		}
 		if (strpbrk(tok.lit, base == 16 ? ".pP" : ".eE")) {
 			/* floating constant */
+			if (base == 16 && !strpbrk(tok.lit, "pP"))
+				error(&tok.loc, "hexadecimal floating constant '%s' has no exponent", tok.lit);
 			e->u.constant.f = strtod(tok.lit, &end);
 			if (end == tok.lit)
 				error(&tok.loc, "invalid floating constant '%s'", tok.lit);
@@ -726,9 +731,12 @@ primaryexpr(struct scope *s)
 			if (base == 2)
 				src += 2;
 			/* integer constant */
+			errno = 0;
 			e->u.constant.u = strtoull(src, &end, base);
 			if (end == src)
 				error(&tok.loc, "invalid integer constant '%s'", tok.lit);
+			if (errno == ERANGE)
+				error(&tok.loc, "integer constant '%s' is too large", tok.lit);
 			e->type = inttype(e->u.constant.u, base == 10, end);
 		}
 		next();
